@@ -28,6 +28,11 @@ type DemuxCfg struct {
 	MaxCalls      int
 	ExtraAfterEOF int
 	KeepReads     bool
+	EOFWithData   bool    // the last bytes arrive together with io.EOF
+	ZeroEvery     int     // every k-th Read returns (0, nil)
+	Logger        *LogTap // when set: passed with DemuxerOptLogger
+	HasSeekFail   bool
+	SeekFailIdx   int // index of the Seek call that fails (when HasSeekFail)
 }
 
 func (c DemuxCfg) String() string {
@@ -38,6 +43,12 @@ func (c DemuxCfg) String() string {
 	ch := "full"
 	if c.Chunk != nil {
 		ch = "chunked"
+	}
+	if c.EOFWithData {
+		ch += "+eof-with-data"
+	}
+	if c.ZeroEvery > 0 {
+		ch += fmt.Sprintf("+zero-read-every-%d", c.ZeroEvery)
 	}
 	return fmt.Sprintf("size=%s reader=%s reads=%s api=%s", ps, c.Reader, ch, c.API)
 }
@@ -99,6 +110,11 @@ func NewDemuxerFor(input []byte, cfg DemuxCfg) (*astits.Demuxer, *mon.RTap) {
 	tap := mon.NewRTap(input)
 	tap.Chunk = cfg.Chunk
 	tap.KeepLog = cfg.KeepReads
+	tap.EOFWithData = cfg.EOFWithData
+	tap.ZeroEvery = cfg.ZeroEvery
+	if cfg.HasSeekFail {
+		tap.SeekFailIdx = cfg.SeekFailIdx
+	}
 	if cfg.HasFail {
 		tap.FailAt = cfg.FailAt
 		tap.FailOnce = cfg.FailOnce
@@ -125,6 +141,9 @@ func NewDemuxerFor(input []byte, cfg DemuxCfg) (*astits.Demuxer, *mon.RTap) {
 	}
 	if cfg.Parser != nil {
 		opts = append(opts, astits.DemuxerOptPacketsParser(cfg.Parser))
+	}
+	if cfg.Logger != nil {
+		opts = append(opts, astits.DemuxerOptLogger(cfg.Logger))
 	}
 	return astits.NewDemuxer(context.Background(), rd, opts...), tap
 }
@@ -233,4 +252,16 @@ func muxWritePacket(p *astits.Packet) (out []byte, n int, err error, panicked st
 		panicked = fmt.Sprintf("%v\n%s", v, st)
 	}
 	return buf.Bytes(), n, err, panicked
+}
+
+// LogTap is a logger handed to the Demuxer: it records what the library logs (errors it decides not to return).
+type LogTap struct{ Lines []string }
+
+func (l *LogTap) Fatal(v ...interface{}) { l.Lines = append(l.Lines, "FATAL "+fmt.Sprint(v...)) }
+func (l *LogTap) Fatalf(format string, v ...interface{}) {
+	l.Lines = append(l.Lines, "FATAL "+fmt.Sprintf(format, v...))
+}
+func (l *LogTap) Print(v ...interface{}) { l.Lines = append(l.Lines, fmt.Sprint(v...)) }
+func (l *LogTap) Printf(format string, v ...interface{}) {
+	l.Lines = append(l.Lines, fmt.Sprintf(format, v...))
 }
